@@ -83,6 +83,10 @@ fn values(tier: Tier) -> Vec<PV> {
         v.push(PV::DateTime(t));
     }
     v.extend([dur(0, 0, 0, 0), dur(0, 0, 0, 1), dur(0, 0, 1, 0), dur(0, 1, 0, 0), dur(1, 0, 0, 0), dur(-1, 0, 0, 0), dur(0, 0, 0, -1)]);
+    // unnormalised durations: the same physical length as another domain value, a different value
+    // (1e9 ns vs 1 s, -1 s + 999 999 999 ns vs -1 ns, 86 400 s vs 1 day) — an order that folds fields
+    // together calls them Equal although `==` does not
+    v.extend([dur(0, 0, 0, 1_000_000_000), dur(0, 0, -1, 999_999_999), dur(0, 0, 86_400, 0)]);
     v.extend([
         PV::Array(vec![]),
         PV::Array(vec![PV::Null]),
